@@ -1422,6 +1422,23 @@ public:
     // We conservatively mark the region as may-initialized
     new_rgn_info.init_val() = boolean_value::top();
 
+    // The allocation sites and tags of the stored value reach the
+    // region even when the write into its contents is skipped.
+    auto weak_update_sites_and_tags = [this, &rgn, &val]() {
+      if (crab_domain_params_man::get().region_allocation_sites()) {
+        if (val.get_type().is_reference() && val.is_variable()) {
+          m_alloc_env.set(rgn, m_alloc_env.at(rgn) |
+                                   m_alloc_env.at(val.get_variable()));
+        }
+      }
+      if (crab_domain_params_man::get().region_tag_analysis()) {
+        if (val.is_variable()) {
+          m_tag_env.set(rgn,
+                        m_tag_env.at(rgn) | m_tag_env.at(val.get_variable()));
+        }
+      }
+    };
+
     if (is_tracked_unknown_region(rgn)) {
       const type_value &rgn_ty = old_rgn_info.type_val();
       if (rgn_ty.is_bottom()) {
@@ -1433,6 +1450,7 @@ public:
         crab::CrabStats::count(domain_name() +
                                ".count.ref_store.skipped.dynamic_type_is_top");
         forget_region_ghost_vars(rgn);
+        weak_update_sites_and_tags();
         m_rgn_env.set(rgn, new_rgn_info);
         return;
       } else if (rgn_ty.get().is_unknown_region()) {
@@ -1462,6 +1480,7 @@ public:
             crab::CrabStats::count(
                 domain_name() +
                 ".count.ref_store.skipped.inconsistent_dynamic_type");
+            weak_update_sites_and_tags();
             m_rgn_env.set(rgn, new_rgn_info);
             return;
           } else if (val.get_type().is_reference()) {
@@ -1496,6 +1515,7 @@ public:
                 domain_name() +
                 ".count.ref_store.skipped.inconsistent_dynamic_type");
             forget_region_ghost_vars(rgn);
+            weak_update_sites_and_tags();
             m_rgn_env.set(rgn, new_rgn_info);
             return;
           }
